@@ -43,6 +43,13 @@ theorem gen_buildNode_shape :
     Caco3Cache.memoCheckedFirst = true ∧ Caco3Cache.hitNeedsSameBuilt = true ∧
     Caco3Cache.hasPut = true ∧ Caco3Cache.putOnlyForRules = true := by decide
 
+/-- an expired record behaves like an absent one (`Op.cacheExpire` empties the model's cache):
+    `get` does not return it, `remove` is reached on every miss — live record or not — and `put`
+    overwrites whatever is stored under the digest -/
+theorem gen_expired_record_is_absent :
+    Caco3Cache.getChecksExpiry = true ∧ Caco3Cache.removeUnconditional = true ∧
+    Caco3Cache.putMethod = "Replace" := by decide
+
 /-- premise "the expiry does not elapse within a history": the cache keeps entries for at least a day -/
 theorem gen_expiry_long : 24 ≤ Caco3Cache.expireHours := by decide
 
